@@ -13,6 +13,8 @@ Failure kinds (first component = what, the `bucket` tag = owner class / paramete
   nonfinite    AD contains NaN / inf while the value is finite
   stale_value  the value did not return to its initial value after the parameter was restored /
                differs between the AD evaluation and the FD base point (cache not invalidated)
+  backward_raises:<Type>   backward() of the returned value raises (graph corrupted by an in-place operation, ...)
+  raises:<Type>@<frame>    building or evaluating the density raises (added by the runner)
 """
 import copy
 import math
@@ -307,6 +309,7 @@ class Engine:
         self.labels = {}
         self.keys = []
         self.evals = 0
+        self.backward_failed = False
         self.tags = dict(base_tags or {})
 
     def lab(self, name, n=1):
@@ -351,23 +354,24 @@ class Engine:
             res.labels = self.labels
             return
         if v_ad is not None and abs(v_ad - f0) > 1e-11 * max(1.0, abs(f0)):
-            res.fail("stale_value", {"value_at_backward": v_ad, "value_after_reassignment": f0}, **dict(self.tags, bucket="value"))
+            res.fail("stale_value", {"value_at_backward": v_ad, "value_after_reassignment": f0}, **dict(self.tags, bucket="value", role="value"))
         fd = {}
         for i in infos:
             fd[i["id"]] = self.differences(i, leaves[i["id"]], x0[i["id"]], f0)
         f1 = self.value()
         if abs(f1 - f0) > 1e-11 * max(1.0, abs(f0)):
-            res.fail("stale_value", {"initial": f0, "after_restoring_every_parameter": f1}, **dict(self.tags, bucket="value"))
+            res.fail("stale_value", {"initial": f0, "after_restoring_every_parameter": f1}, **dict(self.tags, bucket="value", role="value"))
         if ex["order"] != "ad_first":
             for i in infos:
                 p = leaves[i["id"]]
                 p.requires_grad = True
             v_ad, grads = self.autodiff(infos, leaves)
             if abs(v_ad - f0) > 1e-11 * max(1.0, abs(f0)):
-                res.fail("stale_value", {"value_at_backward": v_ad, "initial": f0}, **dict(self.tags, bucket="value"))
+                res.fail("stale_value", {"value_at_backward": v_ad, "initial": f0}, **dict(self.tags, bucket="value", role="value"))
         # ---- comparison
-        for i in infos:
-            self.compare(i, grads[i["id"]], fd[i["id"]], x0[i["id"]], ident)
+        if not self.backward_failed:
+            for i in infos:
+                self.compare(i, grads[i["id"]], fd[i["id"]], x0[i["id"]], ident)
         res.labels = self.labels
         res.keys = self.keys
         res.evals = max(1, self.evals)
@@ -377,7 +381,13 @@ class Engine:
         v = total(self.target)
         val = float(v.detach())
         if v.requires_grad:
-            v.backward()
+            try:
+                v.backward()
+            except RuntimeError as e:
+                # raised by the autograd engine (no torchtree frame on the stack): the recorded graph cannot be differentiated,
+                # e.g. a tensor needed for the backward pass was modified in place
+                self.backward_failed = True
+                self.res.fail("backward_raises:" + type(e).__name__, {"message": str(e)[:400], "value": val}, **dict(self.tags, bucket="backward"))
         out = {}
         for i in infos:
             g = leaves[i["id"]].grad
@@ -704,6 +714,7 @@ def degenerate_cases(tier):
         ("sym", {"name": "GeneralSym", "k": 4, "mapping": [0, 1, 2, 3, 4, 5], "rates": [1.0 / 6] * 6, "freqs": [0.25] * 4}, True, True),
         ("equal_rates", {"name": "GTR", "rates": [1.0] * 6, "freqs": [0.1, 0.2, 0.3, 0.4]}, True, False),
         ("kappa_one", {"name": "HKY", "kappa": 1.0, "freqs": [0.1, 0.2, 0.3, 0.4]}, True, False),
+        ("k80_like", {"name": "GTR", "rates": [1.0, 2.0, 1.0, 1.0, 2.0, 1.0], "freqs": [0.25] * 4}, False, True),
         ("generic", {"name": "GTR", "rates": [0.5, 1.7, 0.8, 1.1, 2.3, 1.0], "freqs": [0.1, 0.2, 0.3, 0.4]}, False, False),
         ("generic", {"name": "HKY", "kappa": 3.0, "freqs": [0.1, 0.2, 0.3, 0.4]}, False, False),
     ]
@@ -711,7 +722,7 @@ def degenerate_cases(tier):
         n = 4 if ti == 0 else 5
         for what, m, eq_r, eq_f in models:
             for site in ({"kind": "constant"}, {"kind": "weibull", "K": 4, "shape": 0.5}):
-                c = {"family": "nucleotide", "topo": tr["topo"], "tree": tr["tree"], "model": m, "site": site, "cols": [col[:n] for col in cols][:n] if False else [[col[i] for i in range(n)] for col in cols],
+                c = {"family": "nucleotide", "topo": tr["topo"], "tree": tr["tree"], "model": m, "site": site, "cols": [[col[i] for i in range(n)] for col in cols],
                      "tip": "amb", "seq_order": list(range(n)), "rescale": False, "point": what, "equal_rates": eq_r, "equal_frequencies": eq_f,
                      "ex": {"order": "ad_first", "sep": 1e-2, "layers": [0], "flip": [False], "aff": [[0.0, 1.0]], "picks": [0, 1, 2, 3], "dir": [0.3, -0.7, 0.5, 0.9, -0.2, 0.6], "wrap": False}}
                 out.append(c)
@@ -781,7 +792,7 @@ def prepare_coal(c):
             else:
                 raise HarnessError("cannot separate a regular grid")
         else:
-            newg = separate({j: t for j, t in enumerate(grid)}, list(g["c"]), delta)
+            newg = separate({j: t for j, t in enumerate(grid)}, list(g["c"]) + (list(g["s"]) if c.get("grid_param") else []), delta)
             p["grid"] = sorted(newg.values())
     if p["model"] == "exponential":
         gr = p["growth"][0]
@@ -874,6 +885,14 @@ def bdsk_cases(draw):
 
 def prepare_bdsk(c):
     c = copy.deepcopy(c)
+    if c.get("constant_class") and max(c["tree"]["tip_heights"]) > 0:
+        # the constant-rate class: one epoch, psi-sampling only, origin given directly
+        for k in ("R", "delta", "s"):
+            c[k] = c[k][-1:]
+        c["rho"], c["bh"], c["root_edge"] = [0.0], [], False
+        c.pop("r", None)
+    else:
+        c["constant_class"] = False
     m = len(c["R"])
     if m > 1:
         c.pop("r", None)  # known C09 crash: removal probability with several epochs
@@ -955,7 +974,7 @@ def bdsk_specs(c):
         infos.append(info("r", cls, "removal_probability", "unit"))
     specs = ts + [spec]
     th = t["tip_heights"]
-    if c.get("constant_class") and m == 1 and "r" not in c and c["rho"][0] == 0 and max(th) > 0 and c["s"][0] > 0 and not c["root_edge"]:
+    if c.get("constant_class"):
         lam, mu, psi = c09.epi(c["R"][0], c["delta"][0], c["s"][0])
         specs.append({"id": "bd", "type": "BirthDeathModel", "tree_model": "tree", "lambda": tt.P("bd.lambda", [lam]), "mu": tt.P("bd.mu", [mu]),
                       "psi": tt.P("bd.psi", [psi]), "rho": tt.P("bd.rho", [0.0]), "origin": tt.P("bd.origin", [x0]), "survival": c["survival"]})
@@ -1386,12 +1405,12 @@ def _pre(cls_of):
 
 def subchecks(tier):
     return [
-        Sub("likelihood", body_like, strategy=like_cases, quick=700, thorough=20000, pretags=like_pretags),
-        Sub("coalescent", body_coal, strategy=coal_cases, quick=500, thorough=12000, pretags=lambda c: {"cls": c08.CLS[c["p"]["model"]]}),
-        Sub("skyline", body_bdsk, strategy=bdsk_cases, quick=250, thorough=6000, pretags=_pre(lambda c: "BDSKModel")),
-        Sub("gmrf", body_gmrf, strategy=gmrf_cases, quick=400, thorough=8000, pretags=_pre(lambda c: c["what"])),
-        Sub("priors", body_priors, strategy=prior_cases, quick=300, thorough=6000, pretags=_pre(lambda c: c["what"])),
-        Sub("jacobian", body_jacobian, strategy=jacobian_cases, quick=400, thorough=8000, pretags=_pre(lambda c: c["what"])),
-        Sub("joint", body_joint, strategy=joint_cases, quick=250, thorough=6000, pretags=lambda c: dict(like_pretags(c), cls="JointDistributionModel")),
+        Sub("likelihood", body_like, strategy=like_cases, quick=600, thorough=20000, pretags=like_pretags),
+        Sub("coalescent", body_coal, strategy=coal_cases, quick=400, thorough=12000, pretags=lambda c: {"cls": c08.CLS[c["p"]["model"]]}),
+        Sub("skyline", body_bdsk, strategy=bdsk_cases, quick=200, thorough=6000, pretags=_pre(lambda c: "BDSKModel")),
+        Sub("gmrf", body_gmrf, strategy=gmrf_cases, quick=300, thorough=8000, pretags=_pre(lambda c: c["what"])),
+        Sub("priors", body_priors, strategy=prior_cases, quick=240, thorough=6000, pretags=_pre(lambda c: c["what"])),
+        Sub("jacobian", body_jacobian, strategy=jacobian_cases, quick=300, thorough=8000, pretags=_pre(lambda c: c["what"])),
+        Sub("joint", body_joint, strategy=joint_cases, quick=200, thorough=6000, pretags=lambda c: dict(like_pretags(c), cls="JointDistributionModel")),
         Sub("degenerate_start", body_degenerate, enumerate=degenerate_cases, exhaustive=True, pretags=degenerate_tags),
     ]
